@@ -12,6 +12,7 @@ import (
 	"encoding/hex"
 	"errors"
 	"fmt"
+	"math"
 	"net"
 	"net/netip"
 	"os"
@@ -170,6 +171,21 @@ func apply(l *fastlog.Line, tok string) *fastlog.Line {
 		return l.Time(name, time.Unix(0, atoi(f[2])).UTC())
 	case "spf":
 		return l.Sprintf(name, string(lib.UnHex(f[2])))
+	case "spfi":
+		return l.Sprintf(name, atoi(f[2]))
+	case "spff":
+		bits, err := strconv.ParseUint(f[2], 10, 64)
+		if err != nil {
+			panic("harness: bad float bits")
+		}
+		return l.Sprintf(name, math.Float64frombits(bits))
+	case "tz", "tzm":
+		t := time.UnixMilli(atoi(f[2])).In(time.FixedZone("", int(atoi(f[3]))))
+		if f[0] == "tzm" { // the same instant carrying a monotonic clock reading
+			base := time.Now()
+			t = base.Add(t.Sub(base)).In(t.Location())
+		}
+		return l.Time(name, t)
 	case "lf":
 		return l.LF()
 	case "mod":
@@ -690,6 +706,9 @@ func main() {
 			g.do("line", "46", itoa(bufSize-9+rep), "mod:"+lib.Hex(name)+":"+msg)
 		}
 	}
+
+	// 5c. structured values for the appenders whose text comes from the standard library
+	stdValueCases(g)
 
 	// 6. arrays longer than the buffer, from every kind of starting index
 	if arrays {
